@@ -54,6 +54,24 @@ def ptListMax : List Pt → Option Pt
   | [] => none
   | p :: ps => some (ps.foldl (fun a b => if b.cmp a != .lt then b else a) p)
 
+/-- the four sides of the common bounding box of the fragments: top, bottom, left, right -/
+def boundsSides (frags : List Frag) : List (Pt × Pt) :=
+  let pts := boundsAllPoints frags
+  let minX := listMin (pts.map (·.x)) 0
+  let maxX := listMax (pts.map (·.x)) 0
+  let minY := listMin (pts.map (·.y)) 0
+  let maxY := listMax (pts.map (·.y)) 0
+  [(⟨minX, minY⟩, ⟨maxX, minY⟩), (⟨minX, maxY⟩, ⟨maxX, maxY⟩),
+   (⟨minX, minY⟩, ⟨minX, maxY⟩), (⟨maxX, minY⟩, ⟨maxX, maxY⟩)]
+
+/-- `lines_are_the_sides_of_their_bounds`: each side of the common bounding box is one of the
+lines of the group -/
+def linesAreSides (frags : List Frag) : Bool :=
+  (boundsSides frags).all fun se => frags.any fun f =>
+    match f with
+    | .line s e _ => s == se.1 && e == se.2
+    | _ => false
+
 /-- `is_rect` -/
 def isRect (frags : List Frag) : Bool :=
   if frags.length == 4 then
@@ -62,7 +80,8 @@ def isRect (frags : List Frag) : Bool :=
       match frags[a1]?, frags[b1]?, frags[a2]?, frags[b2]? with
       | some (.line s1 e1 _), some (.line s2 e2 _), some (.line s3 e3 _), some (.line s4 e4 _) =>
         (lineTouching s1 e1 s2 e2 && lineAabbPerpendicular s1 e1 s2 e2) &&
-        (lineTouching s3 e3 s4 e4 && lineAabbPerpendicular s3 e3 s4 e4)
+        (lineTouching s3 e3 s4 e4 && lineAabbPerpendicular s3 e3 s4 e4) &&
+        linesAreSides frags
       | _, _, _, _ => false
     | _ => false
   else false
